@@ -103,6 +103,8 @@ def run(ctx):
         ctx.log("simulation: %d records -> %d generic/concrete pairs, mismatches=%d" % (s["records"], s["concrete_cases"], s["mismatches"]))
         base.merge_summary(total, s)
         os.remove(cases)
+    if total.get("by_op", {}).get("Equals:eps", 0) == 0:
+        raise vlib.Infra("vacuous enumeration: no Equals/EQUALS case with the epsilon dimension")
     pairs = sorted(total.get("pairs", []))
     missing = [p for p in MUST_PAIRS if p not in pairs]
     if missing or total.get("concrete_cases", 0) == 0 or total.get("scalar_cases", 0) == 0:
